@@ -865,7 +865,7 @@ class Conc:
             return
         for path, (v, w, isconst) in loc.items():
             self.publish_value(v if not isconst else (self.w.consts[v - 1] if isinstance(v, int) and v > 0 else None), pos)
-            s = Stmt("store", True, CPtr(oid, path), (v,), None, pos + " [init flush]", w, "const-index" if isconst else "")
+            s = Stmt("store", True, CPtr(oid, path), (v,), None, pos.replace("@", "") + " [init flush]", w, "const-index" if isconst else "")
             s.op = self.cur_op
             self.cur.stmts.append(s)
 
